@@ -239,3 +239,15 @@ reg("C01", [
     "C01.alloc counts element requests of Vec::with_capacity (the only explicit pre-allocations in the parse path); "
     "incremental Vec growth is bounded by the number of pushes, i.e. by the iteration variants",
 ])
+
+reg("C17", [
+    M("C17", "text", "name_text",
+      "Name::new + Display + re-create over ALL byte strings of length 0..5 (quick) / 0..7 (thorough) (UTF-8 validity assumed), "
+      "names of 253..256 encoded octets; is_subdomain_of/without over all pairs of names with 0..3 (4) one-byte symbolic labels; "
+      "is_link_local over names whose last label has 0,1,4,5,6 symbolic bytes",
+      ["Name::new", "LabelsIter::next", "Label::new", "Label::is_valid_label", "<Name as WireFormat>::len", "<Name as Display>::fmt",
+       "<Label as Display>::fmt", "Name::is_subdomain_of", "Name::without", "Name::is_link_local"]),
+], [
+    "&str arguments are assumed to be valid UTF-8 (a Rust type invariant)",
+    "for the suffix algebra labels are single symbolic bytes: the functions compare labels only through Label equality",
+])
